@@ -227,6 +227,38 @@ def fam_chain(maxlen=3):
                     yield L.wrap_stats([host_with_block('do', block_of([st, L.default_stat('local')]))])
 
 
+LOCAL_BOUNDS = {
+    # nonterminal: (quick local deviations, thorough local deviations)
+    'funcname': (3, 4), 'parlist': (3, 3), 'funcbody': (2, 2), 'args': (3, 3), 'table': (3, 3), 'varlist': (3, 3),
+    'var': (3, 3), 'namelist': (3, 4), 'elifs': (3, 3), 'call': (2, 3), 'prefixexp': (3, 3), 'laststat': (2, 3),
+    'exp': (2, 2), 'explist': (1, 2), 'slstats': (1, 1), 'else_opt': (2, 2), 'step_opt': (2, 2), 'localinit': (2, 2),
+    'retvals': (2, 2), 'field': (2, 2), 'slelse': (1, 1),
+}
+
+
+def fam_local(tier):
+    """Local depth: for every syntactic category all its derivations with <= k deviations *inside it* (k from
+    LOCAL_BOUNDS), each placed in the smallest compile-valid program context. Yields rendered Programs."""
+    seen = set()
+    for nt, (kq, kt) in LOCAL_BOUNDS.items():
+        k = kq if tier == 'quick' else kt
+        for tree, used in L.gen(nt, k):
+            if used < 2:
+                continue        # <= 1 deviation is the 'stat' family's business
+            prog = None
+            for cand in L.embed_variants(nt, tree):
+                prog = L.render(cand)
+                if prog is not None:
+                    break
+            if prog is None or not prog.toks:
+                continue
+            key = b' '.join(prog.spellings())
+            if key in seen:
+                continue
+            seen.add(key)
+            yield prog
+
+
 def all_pairs():
     nullable, first, last, adj = L.analysis()
     return sorted(adj)
@@ -243,6 +275,11 @@ def programs(tier, family, k, n):
         src = fam_nest()
     elif family == 'chain':
         src = fam_chain(3 if tier == 'thorough' else 2)
+    elif family == 'local':
+        for i, prog in enumerate(fam_local(tier)):
+            if i % n == k:
+                yield prog
+        return
     elif family == 'pairs':
         for i, pair in enumerate(all_pairs()):
             if i % n != k:
@@ -294,7 +331,7 @@ def sources_for(prog, tier, family):
                     (a == 'NL' and prog.toks[g].cls == b):
                 for sep in L.legal_seps(prog, g):
                     add(L.assemble(prog, {g: sep}), 'pair-gap')
-    elif n <= limit and (family != 'chain' or tier == 'thorough'):
+    elif n <= limit and (family not in ('chain', 'local') or (tier == 'thorough' and family == 'chain')):
         for src, seps in L.layouts(prog, 1):
             add(src, 'dev1')
     # no final newline
@@ -383,14 +420,14 @@ def culprit(prog, src, e):
 
 
 # ---------------------------------------------------------------- sharding (shared with C06/C09/C01...)
-FAMILIES = ['stat', 'seq', 'nest', 'chain', 'pairs']
+FAMILIES = ['stat', 'seq', 'nest', 'chain', 'local', 'pairs']
 
 
 def program_shards(tier, seed, tag='c08'):
     n = NSHARD[tier]
     items = []
     for fam in FAMILIES:
-        nn = n if fam in ('stat', 'pairs') else max(4, n // 4)
+        nn = n if fam in ('stat', 'pairs', 'local') else max(4, n // 4)
         for k in range(nn):
             items.append(('programs', tag, tier, fam, k, nn))
     return items
@@ -442,7 +479,7 @@ def replay(case):
     src = case['src']
     fam = case.get('family', 'stat')
     for tier in ('quick', 'thorough'):
-        n = NSHARD[tier] if fam in ('stat', 'pairs') else max(4, NSHARD[tier] // 4)
+        n = NSHARD[tier] if fam in ('stat', 'pairs', 'local') else max(4, NSHARD[tier] // 4)
         found = False
         for k in range(n):
             for prog in programs(tier, fam, k, n):
